@@ -56,7 +56,7 @@ def run(tier):
     c.assumptions += [
         "auth switched on through RNACOS_ENABLE_OPEN_API_AUTH in the booted node; API tokens are placed in the token cache "
         "directly (valid / expired); middleware, routing and handlers are the real ones (in-process actix service)",
-        "HTTP leg: every route x 6 spellings x 4 methods x 5 token states x 5 carriers",
+        "HTTP leg: every route x 8 spellings x 4 methods x 5 token states x 5 carriers",
         "gRPC leg: the real tonic Request / BiRequestStream services wired as in main.rs, served on a loopback port of a "
         "single-member node (auth on, cluster token configured); every registered request type (+ ServerCheckRequest + one "
         "unregistered name) x {accessToken, Authorization} x 5 token states x 7 cluster-token states (absent, empty, garbage, "
@@ -66,7 +66,7 @@ def run(tier):
     ]
     shutil.rmtree(sc, ignore_errors=True)
     return c.finish(
-        rule="complete product: every registered route of the main app (from the running app) x 6 spellings x "
+        rule="complete product: every registered route of the main app (from the running app) x 8 spellings x "
              "{GET,POST,PUT,DELETE} x token state {absent, empty, garbage, expired, valid} x carrier {Authorization raw, "
              "Bearer, accessToken header, query, form body} executed on the real app with the real ApiCheckAuth "
              "middleware; TLC evaluates NoDataWithoutToken (scope /nacos/ and /rnacos/v1/, exemptions as in the property) "
